@@ -261,6 +261,7 @@ struct Hist {
                 throw std::runtime_error("harness generated a singular matrix");
         }
         std::vector<double> x = rhs;
+        c.announce(key);
         AD::solve(rng, *obj[t], x);
         nsolve++;
         ld xmax = 0, emax = 0;
